@@ -98,8 +98,8 @@ func VerifH10p() {
 	if sym.Tier(0, 1) == 0 && later[qs] {
 		sym.Stop()
 	}
-	// quick: two series; thorough: three series for six of the shapes
-	three := map[string]bool{`count(foo)`: true, `foo`: true, `avg(foo)`: true, `sum by (b) (foo)`: true, `sum(foo)`: true, `count(count by (a) (foo))`: true}
+	// quick: two series; thorough: three series for three of the shapes
+	three := map[string]bool{`count(foo)`: true, `sum(foo)`: true, `count(count by (a) (foo))`: true}
 	if sym.Tier(0, 1) == 0 || !three[qs] {
 		lbls = lbls[:2]
 	}
